@@ -1,4 +1,4 @@
-import Tetro.Lemmas.BusBasic
+import Tetro.Lemmas.BusFrame
 import Tetro.Lemmas.Bits
 import Tetro.Spec.BusSpec
 /-
@@ -13,7 +13,7 @@ Out of scope (other properties): the cartridge windows (C08/C09) and FF10–FF3F
 the bus model).
 -/
 namespace Tetro.C06
-open Tetro.Model.Decoder Tetro.Model.Machine Tetro.Model Tetro.BusRoute Tetro.BusBasic Tetro.Spec.BusSpec
+open Tetro.Model.Decoder Tetro.Model.Machine Tetro.Model Tetro.BusRoute Tetro.BusBasic Tetro.BusFrame Tetro.Spec.BusSpec
 
 /-! ### byte-level facts (kernel evaluation over all bytes) -/
 
@@ -94,23 +94,8 @@ theorem peek_canon (s : Machine) (a : Nat) : peek R s a = peek R s (canon a) := 
 
 /-! ### OAM -/
 
-private theorem toNat16 {a : Nat} (h : a < 65536) : (BitVec.ofNat 16 a).toNat = a := by
-  rw [BitVec.toNat_ofNat]; exact Nat.mod_eq_of_lt (by omega)
 private theorem toNat8 {v : Nat} (h : v < 256) : (BitVec.ofNat 8 v).toNat = v := by
   rw [BitVec.toNat_ofNat]; exact Nat.mod_eq_of_lt (by omega)
-
-/-- the value part of `oam.Read` -/
-theorem oam_read_val (o : Oam.Oam) (a : Nat) (h1 : 0xfe00 ≤ a) (h2 : a < 0xff00) :
-    (Oam.cpuRead o (BitVec.ofNat 16 a)).map (fun p => p.2.toNat)
-      = some (if o.dmaRunning then 0xff
-              else if h : a - 0xfe00 < 160 then (o.oam[a - 0xfe00]).toNat else 0) := by
-  have ht := toNat16 (a := a) (by omega)
-  obtain ⟨p, hp, hv⟩ := Oam.cpuRead_value (s := o) (a := BitVec.ofNat 16 a) (by omega) (by omega)
-  rw [hp, Option.map_some, hv]
-  simp only [ht]
-  split
-  · rfl
-  · split <;> rfl
 
 private theorem wr_oam (s : Machine) (a v : Nat) (h1 : 0xfe00 ≤ a) (h2 : a < 0xfea0) (hv : v < 256)
     (hd : s.oam.dmaRunning = false) :
@@ -181,15 +166,6 @@ private theorem rb_sc (s : Machine) (v : Nat) (hv : v < 256) : ReadsBack s 0xff0
   refine ⟨s, _, by simp only [busWrite, rW_sc, writeH], by simp only [peek, rR_sc, readVal]; rfl, ?_⟩
   rw [show ruleOf 0xff02 = reg 0x00 0xff from by decide +kernel]
   exact b_ones v hv
-
-/-- `checkFallingEdge` (hence `WriteDIV`, `WriteTAC`) leaves DIV's counter, TAC, TMA and the reload flag alone -/
-theorem cfe_fields (t : Timer.T) :
-    (Timer.checkFallingEdge t).counter = t.counter ∧ (Timer.checkFallingEdge t).tac = t.tac
-    ∧ (Timer.checkFallingEdge t).tma = t.tma ∧ (Timer.checkFallingEdge t).reloading = t.reloading := by
-  unfold Timer.checkFallingEdge Timer.increment
-  split
-  · split <;> exact ⟨rfl, rfl, rfl, rfl⟩
-  · exact ⟨rfl, rfl, rfl, rfl⟩
 
 private theorem rb_div (s : Machine) (v : Nat) (hv : v < 256) : ReadsBack s 0xff04 v := by
   refine ⟨{ s with timer := Timer.writeDIV s.timer }, _,
@@ -417,5 +393,214 @@ theorem readback_all (s : Machine) (a v : Nat) (ha : inScope a) (hv : v < 256) (
     rw [e]
     obtain ⟨s', hw, hp⟩ := wr_ie s v
     exact ⟨s', v, hw, hp, plain_holds (by decide) hv⟩
+
+/-! ### the statements of the property, one by one -/
+
+/-- ordinary memory (video RAM, work RAM, OAM without a running transfer, high RAM, IE): a byte written is the
+    byte read, in EVERY machine state (LCD on or off: this emulator never blocks VRAM/OAM) -/
+theorem c06_plain (s : Machine) (a v : Nat) (ha : a < 0x10000) (hp : plainAddr a) (hv : v < 256)
+    (hd : 0xfe00 ≤ a ∧ a < 0xff00 → s.oam.dmaRunning = false) :
+    ∃ s', busWrite W s a v = some s' ∧ peek R s' a = some v := by
+  have hin : inScope a := by
+    simp only [plainAddr] at hp; simp only [inScope, cartAddr, apuAddr]; omega
+  have hr : Ready s a := by
+    simp only [plainAddr] at hp
+    exact ⟨hd, fun e => by omega, fun e => by omega⟩
+  obtain ⟨s', r, hw, hpk, hh⟩ := readback_all s a v hin hv hr
+  refine ⟨s', hw, ?_⟩
+  rw [plain_rule hp] at hh
+  have e : r &&& 0xff = v := by
+    have := b_ff v hv; simp only [Rule.holds, Rule.readBack] at hh; rw [hh, ← this]; exact b_id v hv
+  -- the value read is the stored byte itself
+  simp only [plainAddr] at hp
+  by_cases c1 : a < 0xa000
+  · obtain ⟨s2, hw2, hp2⟩ := wr_vram s a v (by omega) c1
+    rw [hw] at hw2; cases hw2; exact hp2
+  by_cases c2 : a < 0xe000
+  · obtain ⟨s2, hw2, hp2⟩ := wr_wram s a v (by omega) c2
+    rw [hw] at hw2; cases hw2; exact hp2
+  by_cases c3 : a < 0xfe00
+  · obtain ⟨s2, hw2, hp2⟩ := wr_echo s a v (by omega) c3
+    rw [hw] at hw2; cases hw2; exact hp2
+  by_cases c4 : a < 0xfea0
+  · obtain ⟨s2, hw2, hp2⟩ := wr_oam s a v (by omega) c4 hv (hd (by omega))
+    rw [hw] at hw2; cases hw2; exact hp2
+  by_cases c7 : a < 0xffff
+  · obtain ⟨s2, hw2, hp2⟩ := wr_hram s a v (by omega) c7
+    rw [hw] at hw2; cases hw2; exact hp2
+  · have e : a = 0xffff := by omega
+    subst e
+    obtain ⟨s2, hw2, hp2⟩ := wr_ie s v
+    rw [hw] at hw2; cases hw2; exact hp2
+
+/-- E000–FDFF mirrors C000–DDFF in both directions: a write through either address is read through both -/
+theorem c06_echo (s : Machine) (a v : Nat) (h1 : 0xc000 ≤ a) (h2 : a < 0xde00) :
+    (∃ s', busWrite W s a v = some s' ∧ peek R s' a = some v ∧ peek R s' (a + 0x2000) = some v)
+    ∧ (∃ s', busWrite W s (a + 0x2000) v = some s' ∧ peek R s' a = some v ∧ peek R s' (a + 0x2000) = some v) := by
+  have hc : canon (a + 0x2000) = a := by
+    simp only [canon, if_pos (show 0xe000 ≤ a + 0x2000 ∧ a + 0x2000 < 0xfe00 by omega)]; omega
+  constructor
+  · obtain ⟨s', hw, hp⟩ := wr_wram s a v h1 (by omega)
+    exact ⟨s', hw, hp, by rw [peek_canon, hc]; exact hp⟩
+  · obtain ⟨s', hw, hp⟩ := wr_echo s (a + 0x2000) v (by omega) (by omega)
+    exact ⟨s', hw, by rw [peek_canon, hc] at hp; exact hp, hp⟩
+
+/-- FEA0–FEFF reads 00 while OAM is accessible, whatever is written there -/
+theorem c06_unusable (s : Machine) (a : Nat) (h1 : 0xfea0 ≤ a) (h2 : a < 0xff00) (hd : s.oam.dmaRunning = false) :
+    peek R s a = some 0 ∧ ∀ v, ∃ s', busWrite W s a v = some s' ∧ peek R s' a = some 0 := by
+  refine ⟨?_, fun v => wr_unusable s a v h1 h2 hd⟩
+  simp only [peek, rR_oam (by omega) h2, readVal]
+  rw [oam_read_val _ a (by omega) h2]
+  simp only [hd, Bool.false_eq_true, if_false, dif_neg (show ¬ a - 0xfe00 < 160 by omega)]
+
+/-- an unmapped I/O address reads FF and a write to it changes nothing at all -/
+theorem c06_unmapped (s : Machine) (a v : Nat) (h : unmappedAddr a) :
+    peek R s a = some 0xff ∧ busWrite W s a v = some s := by
+  obtain ⟨k, rfl⟩ : ∃ k, a = 0xff00 + k := ⟨a - 0xff00, by have := h.1; omega⟩
+  have hk : k < 128 := by have := h.2.1; omega
+  obtain ⟨h1, h2, _⟩ := unmapped_facts k hk h
+  exact ⟨by simp only [peek, h1, readVal], by simp only [busWrite, h2, writeH]⟩
+
+private theorem regTable_facts : ∀ e ∈ regTable,
+    inScope e.1 ∧ ruleOf e.1 = e.2 ∧ e.2.care = e.2.writable ||| e.2.forced
+    ∧ ∀ v < 256, ((v &&& e.2.writable) ||| e.2.forced) &&& e.2.care = (v &&& e.2.writable) ||| e.2.forced := by
+  decide +kernel
+
+private theorem m8 (a b c d : Bool) :
+    (128 + (if a = true then 64 else 0) + (if b = true then 32 else 0) + (if c = true then 16 else 0)
+      + (if d = true then 8 else 0)) % 8 = 0 := by
+  cases a <;> cases b <;> cases c <;> cases d <;> rfl
+
+private theorem m8key (x y c m : Nat) (hx : x % 8 = 0) (hy : y % 8 = 0) :
+    ((x + c + m) % 256) % 8 = ((y + c + m) % 256) % 8 := by omega
+
+/-- every register of the table reads back `(v AND writable) OR forced` on its specified bits
+    (IF E0, TAC F8, STAT 80 with bits 0-2 left to the PPU, JOYP C0 with the low nibble left to the keys, …) -/
+theorem c06_reg_readback (s : Machine) (v : Nat) (hv : v < 256) :
+    ∀ e ∈ regTable, Ready s e.1 →
+      ∃ s' r, busWrite W s e.1 v = some s' ∧ peek R s' e.1 = some r
+        ∧ r &&& (e.2.writable ||| e.2.forced) = (v &&& e.2.writable) ||| e.2.forced := by
+  intro e he hr
+  have hin := regTable_facts e he
+  obtain ⟨s', r, hw, hp, hh⟩ := readback_all s e.1 v hin.1 hv hr
+  refine ⟨s', r, hw, hp, ?_⟩
+  rw [hin.2.1] at hh
+  simp only [Rule.holds, Rule.readBack] at hh
+  rw [← hin.2.2.1, hh]
+  exact hin.2.2.2 v hv
+
+/-- the read-only bits of STAT (mode, coincidence) are not touched by a write to STAT -/
+theorem c06_stat_readonly (s : Machine) (v : Nat) :
+    ∃ s' r r0, busWrite W s 0xff41 v = some s' ∧ peek R s' 0xff41 = some r ∧ peek R s 0xff41 = some r0
+      ∧ r % 8 = r0 % 8 := by
+  refine ⟨{ s with ppu := Lcd.wSTAT s.ppu v }, _, _, by simp only [busWrite, rW_stat, writeH],
+    by simp only [peek, rR_stat, readVal]; rfl, by simp only [peek, rR_stat, readVal]; rfl, ?_⟩
+  simp only [Lcd.readSTAT, Lcd.wSTAT]
+  exact m8key _ _ _ _ (m8 _ _ _ _) (m8 _ _ _ _)
+
+/-- writes never set DIV or LY to the written value: what is read afterwards does not depend on `v`,
+    and DIV reads 00 -/
+theorem c06_div_ly (s : Machine) (v1 v2 : Nat) :
+    (∃ s1 s2, busWrite W s 0xff04 v1 = some s1 ∧ busWrite W s 0xff04 v2 = some s2
+        ∧ peek R s1 0xff04 = some 0 ∧ peek R s2 0xff04 = some 0)
+    ∧ (∃ s1 s2, busWrite W s 0xff44 v1 = some s1 ∧ busWrite W s 0xff44 v2 = some s2
+        ∧ peek R s1 0xff44 = peek R s2 0xff44) := by
+  constructor
+  · have : Timer.readDIV (Timer.writeDIV s.timer) = 0 := by
+      simp only [Timer.readDIV, Timer.writeDIV, Timer.reset, (cfe_fields _).1]
+    exact ⟨{ s with timer := Timer.writeDIV s.timer }, { s with timer := Timer.writeDIV s.timer },
+      by simp only [busWrite, rW_div, writeH], by simp only [busWrite, rW_div, writeH],
+      by simp only [peek, rR_div, readVal, this], by simp only [peek, rR_div, readVal, this]⟩
+  · exact ⟨{ s with ppu := Lcd.wLY s.ppu v1 }, { s with ppu := Lcd.wLY s.ppu v2 },
+      by simp only [busWrite, rW_ly, writeH], by simp only [busWrite, rW_ly, writeH],
+      by simp only [peek, rR_ly, readVal]; rfl⟩
+
+/-- FF46 reads back the last value written, for every value (incl. E0–FF, where the transfer source is mirrored) -/
+theorem c06_dma_readback (s : Machine) (v : Nat) (hv : v < 256) :
+    ∃ s', busWrite W s 0xff46 v = some s' ∧ peek R s' 0xff46 = some v := by
+  refine ⟨{ s with oam := Oam.writeDMA s.oam (BitVec.ofNat 8 v) }, by simp only [busWrite, rW_dma, writeH], ?_⟩
+  simp only [peek, rR_dma, readVal]
+  have : Oam.readDMA (Oam.writeDMA s.oam (BitVec.ofNat 8 v)) = BitVec.ofNat 8 v := rfl
+  rw [this, toNat8 hv]
+
+/-! ### no access in scope panics; a read changes nothing that can be read -/
+
+private theorem reg_peek_total : ∀ k < 128, ¬ apuAddr (0xff00 + k) → ∀ s : Machine,
+    ∃ r, readVal (route R (0xff00 + k)) s (0xff00 + k) = some r := by
+  intro k hk hna s
+  rcases io_cases k hk with e | e | e | e | e | e | e | e | e | e | e | e | e | e | e | e | e | e | e | e | e | e
+  · rw [e, rR_joyp]; exact ⟨_, rfl⟩
+  · rw [e, rR_sb]; exact ⟨_, rfl⟩
+  · rw [e, rR_sc]; exact ⟨_, rfl⟩
+  · rw [e, rR_div]; exact ⟨_, rfl⟩
+  · rw [e, rR_tima]; exact ⟨_, rfl⟩
+  · rw [e, rR_tma]; exact ⟨_, rfl⟩
+  · rw [e, rR_tac]; exact ⟨_, rfl⟩
+  · rw [e, rR_ifl]; exact ⟨_, rfl⟩
+  · rw [e, rR_lcdc]; exact ⟨_, rfl⟩
+  · rw [e, rR_stat]; exact ⟨_, rfl⟩
+  · rw [e, rR_scy]; exact ⟨_, rfl⟩
+  · rw [e, rR_scx]; exact ⟨_, rfl⟩
+  · rw [e, rR_ly]; exact ⟨_, rfl⟩
+  · rw [e, rR_lyc]; exact ⟨_, rfl⟩
+  · rw [e, rR_dma]; exact ⟨_, rfl⟩
+  · rw [e, rR_bgp]; exact ⟨_, rfl⟩
+  · rw [e, rR_obp0]; exact ⟨_, rfl⟩
+  · rw [e, rR_obp1]; exact ⟨_, rfl⟩
+  · rw [e, rR_wy]; exact ⟨_, rfl⟩
+  · rw [e, rR_wx]; exact ⟨_, rfl⟩
+  · rw [(unmapped_facts k hk e).1]; exact ⟨_, rfl⟩
+  · exact absurd e hna
+
+/-- a read of an address in scope never panics -/
+theorem peek_total (s : Machine) (b : Nat) (hb : inScope b) : ∃ r, peek R s b = some r := by
+  obtain ⟨hlt, hnc, hna⟩ := hb
+  simp only [cartAddr] at hnc
+  unfold peek
+  by_cases c1 : b < 0xa000
+  · rw [rR_vram (by omega) c1]; simp only [readVal]
+    rw [sub16_eq (by omega) hlt, ldv_eq (by omega)]; exact ⟨_, rfl⟩
+  by_cases c2 : b < 0xe000
+  · rw [rR_wram (by omega) c2]; simp only [readVal]
+    rw [sub16_eq (by omega) hlt, ldv_eq (by omega)]; exact ⟨_, rfl⟩
+  by_cases c3 : b < 0xfe00
+  · rw [rR_echo (by omega) c3]; simp only [readVal]
+    rw [sub16_eq (by omega) hlt, ldv_eq (by omega)]; exact ⟨_, rfl⟩
+  by_cases c5 : b < 0xff00
+  · rw [rR_oam (by omega) c5]; simp only [readVal]
+    rw [oam_read_val _ b (by omega) c5]; exact ⟨_, rfl⟩
+  by_cases c6 : b < 0xff80
+  · obtain ⟨k, rfl⟩ : ∃ k, b = 0xff00 + k := ⟨b - 0xff00, by omega⟩
+    exact reg_peek_total k (by omega) hna s
+  by_cases c7 : b < 0xffff
+  · rw [rR_hram (by omega) c7]; simp only [readVal]
+    rw [sub16_eq (by omega) hlt, ldv_eq (by omega)]; exact ⟨_, rfl⟩
+  · have e : b = 0xffff := by omega
+    rw [e, rR_ie]; exact ⟨_, rfl⟩
+
+/-- the machine after a read reads the same everywhere (only the OAM-bug flag may have been set) -/
+theorem read_keeps (s : Machine) (h : H) (a b : Nat) (hb : b < 65536) :
+    peek R (readEff h s a) b = peek R s b
+    ∧ (readEff h s a).timer = s.timer ∧ (readEff h s a).ppu = s.ppu
+    ∧ (readEff h s a).oam.dmaRunning = s.oam.dmaRunning := by
+  by_cases hh : h = .oam
+  · subst hh
+    simp only [readEff]
+    cases hc : Oam.cpuRead s.oam (BitVec.ofNat 16 a) with
+    | none => exact ⟨rfl, rfl, rfl, rfl⟩
+    | some p =>
+      have hsh := Oam.cpuRead_shape hc
+      have hfl : p.1.dmaRunning = s.oam.dmaRunning ∧ p.1.oam = s.oam.oam ∧ p.1.dma = s.oam.dma := by
+        rcases hsh with e | ⟨_, _, e⟩ <;> rw [e] <;> exact ⟨rfl, rfl, rfl⟩
+      refine ⟨?_, rfl, rfl, hfl.1⟩
+      unfold peek
+      have hrb := range_read hb
+      generalize route R b = rb at hrb
+      refine fld_oam _ _ _ _ (fun e => ?_) (fun _ => hfl.2.2)
+      subst e
+      have r := rng_oam hrb
+      exact oam_val_congr _ _ b r.1 r.2 hfl.1 hfl.2.1
+  · have : readEff h s a = s := by cases h <;> first | rfl | exact absurd rfl hh
+    rw [this]; exact ⟨rfl, rfl, rfl, rfl⟩
 
 end Tetro.C06
